@@ -24,6 +24,7 @@ func init() {
 func runC16(c *Check) {
 	c16Equals(c, "C16.O1")
 	c16Copy(c, "C16.O2")
+	c16Metadata(c, "C16.O3")
 	c16Envelope(c, "C16.O4")
 	c16Codecs(c, "C16.O5")
 	c16Reply(c, "C16.O6")
@@ -758,4 +759,41 @@ func FieldStoresByName(fn *ssa.Function, name string) []*ssa.Store {
 		}
 	})
 	return out
+}
+
+// c16Metadata: Metadata.Set stores every key/value it is given (also empty
+// values) and Get reads the key back; Copy relies on it for every entry.
+func c16Metadata(c *Check, id string) {
+	M := c.P.Named("message", "Metadata")
+	if M == nil {
+		c.Floor(id, "type message.Metadata", 0, 1)
+		return
+	}
+	set, get := c.P.MethodOf(M, "Set"), c.P.MethodOf(M, "Get")
+	if !c.Use(id, set, "Metadata.Set") || !c.Use(id, get, "Metadata.Get") {
+		return
+	}
+	var upd *ssa.MapUpdate
+	AllInstrs(set, func(in ssa.Instruction) {
+		if mu, ok := in.(*ssa.MapUpdate); ok && FromParam(set.Params[0])(mu.Map) {
+			upd = mu
+		}
+	})
+	ok := upd != nil && FromParam(set.Params[1])(upd.Key) && FromParam(set.Params[2])(upd.Value)
+	if ok {
+		for _, r := range Returns(set) {
+			if !Dominates(set, upd, r) {
+				ok = false
+			}
+		}
+	}
+	ok = ok && len(BuiltinCalls(set, "delete")) == 0
+	c.Report(ok, id, "METADATA-SET-STORES", set, set.Pos(), "Metadata.Set", "Set stores exactly (key, value) on every path, also for empty values, and never deletes (Copy's metadata is complete)")
+	okG := false
+	AllInstrs(get, func(in ssa.Instruction) {
+		if lk, isLk := in.(*ssa.Lookup); isLk && FromParam(get.Params[0])(lk.X) && FromParam(get.Params[1])(lk.Index) {
+			okG = true
+		}
+	})
+	c.Report(okG, id, "METADATA-GET-READS", get, get.Pos(), "Metadata.Get", "Get looks up exactly the given key")
 }
